@@ -535,18 +535,21 @@ pub fn structural(prop: &'static str, cfg: &Config) -> PropRun {
         }
     }
     let sp = filter_spaces(cfg, sp);
-    // The list passes come first and the bulk enumeration of the alphabets last: when the
-    // exploration budget of the tier runs out, it is the tail of the largest space that is cut,
-    // never one of the targeted lists.
+    // Order: the small targeted lists, then the bulk enumeration of the alphabets (smallest space
+    // first), then the large lists. When the exploration budget of the tier runs out, what is cut
+    // is the tail of the largest enumeration, never a small targeted list or a small alphabet.
     let mut early: Vec<Report> = Vec::new();
+    // the large lists (corpus truncations, scale family, test-snippet pairs, program truncations)
+    // are closures run after the bulk; the small targeted lists run before it
+    let mut late: Vec<Box<dyn FnOnce() -> Report + '_>> = Vec::new();
     if corpus && cfg.only_spaces.is_empty() {
-        early.push(run_corpus(prop, cfg, &ex));
+        late.push(Box::new(|| run_corpus(prop, cfg, &ex)));
     }
     if prop == "C01" && cfg.only_spaces.is_empty() {
-        early.push(run_pumped(cfg, &ex));
+        late.push(Box::new(|| run_pumped(cfg, &ex)));
     }
     if cfg.only_spaces.is_empty() {
-        early.push(run_scale(prop, cfg, &ex));
+        late.push(Box::new(|| run_scale(prop, cfg, &ex)));
     }
     if matches!(prop, "C07" | "C06" | "C01") && cfg.only_spaces.is_empty() {
         // every pair of characters (all of ASCII incl. controls, three non-ASCII digits/letters)
@@ -572,12 +575,15 @@ pub fn structural(prop: &'static str, cfg: &Config) -> PropRun {
     if cfg.only_spaces.is_empty() {
         let ts = spaces::test_string_inputs(&cfg.corpus_dir, cfg.tier, true);
         if !ts.is_empty() {
-            early.push(ex.run_list(
-                "snippets of the repository's inline tests: alone, inside every nesting prefix, all ordered pairs",
-                ts.len() as u64,
-                |i, buf| buf.push_str(&ts[i as usize]),
-                |local, input, _| visit_text(prop, local, input),
-            ));
+            let exr = &ex;
+            late.push(Box::new(move || {
+                exr.run_list(
+                    "snippets of the repository's inline tests: alone, inside every nesting prefix, all ordered pairs",
+                    ts.len() as u64,
+                    |i, buf| buf.push_str(&ts[i as usize]),
+                    |local, input, _| visit_text(prop, local, input),
+                )
+            }));
         }
     }
     if matches!(prop, "C07" | "C06" | "C01") && cfg.only_spaces.is_empty() {
@@ -601,7 +607,7 @@ pub fn structural(prop: &'static str, cfg: &Config) -> PropRun {
         ));
     }
     if matches!(prop, "C01" | "C02" | "C09" | "C10") && cfg.only_spaces.is_empty() {
-        early.push(run_program_truncations(prop, cfg, &ex));
+        late.push(Box::new(|| run_program_truncations(prop, cfg, &ex)));
     }
     if cfg.only_spaces.is_empty() {
         let xp = spaces::exotic_pair_inputs();
@@ -615,6 +621,9 @@ pub fn structural(prop: &'static str, cfg: &Config) -> PropRun {
     let mut report = ex.run(&sp, structural_visit(prop), cfg_of);
     for e in early {
         report.absorb(e);
+    }
+    for f in late {
+        report.absorb(f());
     }
     report.distinct_nontrivial = ex.distinct_nontrivial.load(std::sync::atomic::Ordering::Relaxed);
     PropRun { report, rule: rule.to_string(), oracle: format!("oracle of {prop} (DESIGN 5)") }
